@@ -32,6 +32,10 @@ type Stats struct {
 	Sample                   any
 	NonTrivial               bool
 	Digest                   string
+	// MapDep names the library routine whose Go-map iteration legitimately
+	// influences this case's execution order or bytes ("" = none): such a case is
+	// compared only on its order-free parts by the determinism self-test.
+	MapDep string
 }
 
 func (s *Stats) shape(k string) {
